@@ -291,8 +291,11 @@ def gen_random(g):
         b = make(g.compatible_shape(base), rng.choice([p for p in pools if p != names]))
     if rng.random() < 0.3:
         a, b = b, a
-    return {"kind": "random", "a": a, "b": b, "graded": rng.random() < 0.6,
+    case = {"kind": "random", "a": a, "b": b, "graded": rng.random() < 0.6,
             "reverse": rng.random() < 0.4, "spelling": rng.choice(["operator", "numpy", "numpoly"])}
+    if a["k"] == "poly" and b["k"] == "poly" and rng.random() < 0.2:
+        case["aligned_view"] = rng.choice(["T", "ravel", "reversed", "plain"])
+    return case
 
 
 def elem_sign(x, y, names, graded, reverse):
@@ -314,6 +317,19 @@ def run_random_case(case, ctx):
         shape = numpy.broadcast_shapes(am.shape, bm.shape)
     except ValueError:
         return
+    view = case.get("aligned_view")
+    if view and isinstance(a, numpoly.ndpoly) and isinstance(b, numpoly.ndpoly):
+        # the operands were aligned beforehand and are compared as views of the aligned arrays
+        a, b = numpoly.align_polynomials(a, b)
+        am, bm = numpy.broadcast_to(am, shape), numpy.broadcast_to(bm, shape)
+        if view == "T":
+            a, b, am, bm = a.T, b.T, am.T, bm.T
+        elif view == "ravel":
+            a, b, am, bm = a.ravel(), b.ravel(), am.ravel(), bm.ravel()
+        elif view == "reversed" and len(shape):
+            a, b, am, bm = a[::-1], b[::-1], am[::-1], bm[::-1]
+        shape = tuple(am.shape)
+        ctx.count("aligned_view_cases")
     graded, reverse = case["graded"], case["reverse"]
     names = sorted(M.all_names(am) | M.all_names(bm), key=M.numsuffix) or ["q0"]
     ab, bb = numpy.broadcast_to(am, shape), numpy.broadcast_to(bm, shape)
